@@ -354,6 +354,12 @@ class Messages:
         return None
 
     def stores(self, kind: str) -> list:
+        cache = self.__dict__.setdefault("_stores", {})
+        if kind not in cache:
+            cache[kind] = self._find_stores(kind)
+        return list(cache[kind])
+
+    def _find_stores(self, kind: str) -> list:
         self.load(kind)
         P = self.P
         attr = MESSAGES[kind][1]
